@@ -176,6 +176,8 @@ def list_repeat(ex, st, lst, n, node):
 
 def empty_seq(ex, st, kind):
     """`x = []` for a list that grows in a loop (type hint of the sidecar): symbolic sequence of length 0."""
+    if callable(kind):                                     # sidecar-defined sequence kind: kind(ex, st) -> heap reference of a VSeq
+        return kind(ex, st)
     if kind == 'intseq':
         return st.alloc(VSeq(ex.fresh('empty', z3.ArraySort(z3.IntSort(), z3.IntSort())), z3.IntVal(0), lambda t: t, tag='int'))
     if kind == 'tt':
@@ -368,7 +370,7 @@ def havoc(ex, st, v, name, mutated):
         if isinstance(o, VRec):
             st.heap[v.oid] = VRec({k: fresh_like(ex, st, x, f'{name}_{k}') for k, x in o.fields.items()})
         elif isinstance(o, VSeq):
-            st.heap[v.oid] = VSeq(ex.fresh(name + '_arr', o.arr.sort()), ex.fresh_int(name + '_len'), o.wrap, o.tag)
+            st.heap[v.oid] = VSeq(ex.fresh(name + '_arr', o.arr.sort()), ex.fresh_int(name + '_len'), o.wrap, o.tag, getattr(o, 'unwrap', None))
             st.assume(st.heap[v.oid].n >= 0)
         elif isinstance(o, VMap):
             pass
@@ -507,7 +509,7 @@ def subscript(ex, st, base, sl_, node):
             k = z3.Int('k!s')
             arr = ex.fresh('slice', b.arr.sort())
             st.assume(z3.ForAll([k], arr[k] == b.arr[k + Z(lo)], patterns=[arr[k]]))
-            return st.alloc(VSeq(arr, Z(hi) - Z(lo), b.wrap, b.tag))
+            return st.alloc(VSeq(arr, Z(hi) - Z(lo), b.wrap, b.tag, getattr(b, 'unwrap', None)))
         i = ex.need_num(st, ex.ev(sl_, st), node)
         i = norm_index(ex, st, i, b.n, node, 'list-index')
         return b.get(Z(i))
@@ -687,6 +689,8 @@ def arr_setitem(ex, st, b, sl_, v, node):
 
 def unwrap_elem(ex, st, seq, v, node):
     """z3 term for storing value v into sequence seq."""
+    if getattr(seq, 'unwrap', None) is not None:          # sequence kind defined by a sidecar contract (wrap / unwrap pair)
+        return seq.unwrap(ex, st, v, node)
     if seq.tag == 'core':
         v = st.deref(v)
         if isinstance(v, VArr) and v.ndim == 3:
@@ -859,6 +863,9 @@ def _iter_of_value(ex, st, v, node):
 
 
 def iteration(ex, st, it, node):
+    if isinstance(it, ast.IfExp):        # for x in (A if flag else B): decide the flag, iterate over the chosen iterable
+        c = ex.decide(st, ex.truth(st, ex.ev(it.test, st), node), node)
+        return iteration(ex, st, it.body if c else it.orelse, node)
     if isinstance(it, ast.Call):
         fn = ast.unparse(it.func)
         if fn == 'range':
